@@ -144,6 +144,10 @@ func preloadEntryPoint(db *gorm.DB, joins []string, relationships *schema.Relati
 					}
 				case reflect.Struct, reflect.Pointer:
 					reflectValue := rel.Field.ReflectValueOf(db.Statement.Context, rv)
+					if reflectValue.Kind() == reflect.Ptr && reflectValue.IsNil() {
+						// the joined relation is NULL for this record: nothing to preload below it
+						continue
+					}
 					tx := preloadDB(db, reflectValue, reflectValue.Interface())
 					if err := preloadEntryPoint(tx, nestedJoins, &tx.Statement.Schema.Relationships, preloadMap[name], associationsConds); err != nil {
 						return err
